@@ -2,7 +2,7 @@
    check.  Only the standard directives of ExtrOcamlBasic / ExtrOcamlZBigInt are used.
    Compiled with cwd = /verif/ocaml/c13 so that model.ml lands there. *)
 From Coq Require Import Extraction ExtrOcamlBasic ExtrOcamlZBigInt.
-Require Import V.base.Fld V.model.CurveParams V.model.Curve V.model.PointCodec.
+Require Import V.base.Fld V.model.CurveParams V.model.Curve V.gen.CodecConsts V.model.PointCodec.
 Extraction Blacklist List String Nat.
 Extraction "model.ml"
   k256_codec p256_codec pallas_codec vesta_codec blsg1_codec ed25519_codec curve25519_c
